@@ -32,13 +32,9 @@ def lruOverflow (hpCap : Nat) : List LruEnt → List LruEnt → Nat → List Lru
     if hw > hpCap then lruOverflow hpCap hs (low ++ [{ e with inHigh := false }]) (hw - e.r.weight)
     else (e :: hs, low, hw)
 
-def eraseEnt (i : Nat) : List LruEnt → List LruEnt
-  | [] => []
-  | e :: es => if e.r.id = i then eraseEnt i es else e :: eraseEnt i es
+def eraseEnt (i : Nat) (l : List LruEnt) : List LruEnt := l.filter fun e => e.r.id ≠ i
 
-def findEnt (i : Nat) : List LruEnt → Option LruEnt
-  | [] => none
-  | e :: es => if e.r.id = i then some e else findEnt i es
+def findEnt (i : Nat) (l : List LruEnt) : Option LruEnt := l.find? fun e => e.r.id = i
 
 def Lru.withOverflow (s : Lru) : Lru :=
   let (h, l, w) := lruOverflow s.hpCap s.high s.low s.hw
@@ -62,12 +58,12 @@ def lruPolicy (capFn : Nat → Nat) : Policy Lru where
     | some _ => { s with pin := eraseEnt r.id s.pin }
     | none =>
       match findEnt r.id s.high with
-      | some _ => { s with high := eraseEnt r.id s.high, hw := s.hw - r.weight }
+      | some e => { s with high := eraseEnt r.id s.high, hw := s.hw - e.r.weight }
       | none => { s with low := eraseEnt r.id s.low }
   acquire s r :=
     -- not in eviction, or already pinned: nothing to do
     match findEnt r.id s.high with
-    | some e => { s with high := eraseEnt r.id s.high, hw := s.hw - r.weight, pin := s.pin ++ [e] }
+    | some e => { s with high := eraseEnt r.id s.high, hw := s.hw - e.r.weight, pin := s.pin ++ [e] }
     | none =>
       match findEnt r.id s.low with
       | some e => { s with low := eraseEnt r.id s.low, pin := s.pin ++ [e] }
@@ -77,7 +73,7 @@ def lruPolicy (capFn : Nat → Nat) : Policy Lru where
     | none => s
     | some e =>
       if e.inHigh then
-        Lru.withOverflow { s with pin := eraseEnt r.id s.pin, high := s.high ++ [e], hw := s.hw + r.weight }
+        Lru.withOverflow { s with pin := eraseEnt r.id s.pin, high := s.high ++ [e], hw := s.hw + e.r.weight }
       else { s with pin := eraseEnt r.id s.pin, low := s.low ++ [e] }
   update s cap := Lru.withOverflow { s with hpCap := capFn cap }
   clear s := { s with high := [], low := [], pin := [], hw := 0 }
